@@ -615,4 +615,109 @@ theorem today_fiber_imul_keeps_unmatched [Mul ν] (dflt : ν) (d : Nat) (a b : T
     cases lookup (present dflt d a) c <;> rfl
 
 end
+
+/-! ### fiber ∘ scalar (leaf fibers, integer coordinates) -/
+
+section
+variable {ν : Type} [DecidableEq ν]
+
+/-- the dense view of a leaf fiber at one coordinate -/
+theorem denseAt_leaf (dflt : ν) (f : Fib Int ν) (c : Int) :
+    denseAt dflt 1 (leafFiber f) [c] = (lookup f c).getD dflt := by
+  rw [denseAt_cons']
+  have : ∀ o : Option ν, optDense (κ := Int) dflt 0 (o : Option (Tree Int ν 0)) [] = o.getD dflt := by
+    intro o; cases o <;> rfl
+  exact this _
+
+/-- **Fiber + scalar adds over the whole shape**: inside `[0, n)` every coordinate — stored or
+    not — holds `s +` the operand's dense value; outside the shape the result stores nothing. -/
+theorem fiber_scalar_add [Add ν] (dflt s : ν) (n : Nat) (f : Fib Int ν) (c : Int) :
+    denseAt dflt 1 (leafFiber (saddF dflt s n f)) [c] =
+      if 0 ≤ c ∧ c < (n : Int) then s + denseAt dflt 1 (leafFiber f) [c] else dflt := by
+  rw [denseAt_leaf, denseAt_leaf]
+  unfold saddF
+  rw [lookup_range_map (fun i => s + (lookup f (i : Int)).getD dflt) n c]
+  by_cases h : 0 ≤ c ∧ c < (n : Int)
+  · rw [if_pos h, if_pos h, Int.toNat_of_nonneg h.1]; rfl
+  · rw [if_neg h, if_neg h]; rfl
+
+/-- **Fiber * scalar scales the stored (non-default) elements** and stores nothing else. -/
+theorem fiber_scalar_mul [Mul ν] (dflt s : ν) (f : Fib Int ν) (hs : Sorted f) (c : Int) :
+    denseAt dflt 1 (leafFiber (smulF dflt s f)) [c] =
+      if denseAt dflt 1 (leafFiber f) [c] ≠ dflt
+      then s * denseAt dflt 1 (leafFiber f) [c] else dflt := by
+  rw [denseAt_leaf, denseAt_leaf]
+  unfold smulF
+  rw [lookup_map_val (f.filter (fun e => !decide (e.2 = dflt))) (fun _ v => s * v) c,
+    lookup_filter_val hs (fun v => !decide (v = dflt)) c]
+  cases hl : lookup f c with
+  | none => simp [Option.filter]
+  | some v =>
+    by_cases hv : v = dflt
+    · simp [Option.filter, hv]
+    · simp [Option.filter, hv]
+
+/-- what `f += s` does: inside the shape every coordinate gets `+ s` (absent ones are created
+    from the default); coordinates outside the shape are left alone -/
+theorem fiber_scalar_iadd_dense [Add ν] (dflt s : ν) (n : Nat) (f : Fib Int ν) (hs : Sorted f) (c : Int) :
+    denseAt dflt 1 (leafFiber (isaddF dflt s n f)) [c] =
+      if 0 ≤ c ∧ c < (n : Int) then denseAt dflt 1 (leafFiber f) [c] + s
+      else denseAt dflt 1 (leafFiber f) [c] := by
+  rw [denseAt_leaf, denseAt_leaf, (lookup_isaddF dflt s n f hs).2 c]
+  by_cases h : 0 ≤ c ∧ c < (n : Int)
+  · rw [if_pos h, if_pos h]; rfl
+  · rw [if_neg h, if_neg h]
+
+/-- what `f *= s` does: the stored non-default values are scaled in place -/
+theorem fiber_scalar_imul_dense [Mul ν] (dflt s : ν) (f : Fib Int ν) (c : Int) :
+    denseAt dflt 1 (leafFiber (ismulF dflt s f)) [c] =
+      if denseAt dflt 1 (leafFiber f) [c] ≠ dflt
+      then denseAt dflt 1 (leafFiber f) [c] * s
+      else denseAt dflt 1 (leafFiber f) [c] := by
+  rw [denseAt_leaf, denseAt_leaf]
+  have hmap : ismulF dflt s f = f.map (fun e => (e.1, (fun _ v => if v = dflt then v else v * s) e.1 e.2)) := by
+    unfold ismulF
+    apply List.map_congr_left
+    intro e _
+    obtain ⟨k, v⟩ := e
+    by_cases hv : v = dflt <;> simp [hv]
+  rw [hmap, lookup_map_val f (fun _ v => if v = dflt then v else v * s) c]
+  cases hl : lookup f c with
+  | none => simp
+  | some v =>
+    by_cases hv : v = dflt
+    · simp [hv]
+    · simp [hv]
+
+/-- **`f += s` = `f + s` (partial)**: when every coordinate of `f` lies inside the shape and `s`
+    commutes with the values (`+` evaluates `s + v`, `+=` evaluates `v + s`). -/
+theorem fiber_scalar_iadd_eq_add_partial [Add ν] (dflt s : ν) (n : Nat) (f : Fib Int ν) (hs : Sorted f)
+    (hcomm : ∀ v : ν, s + v = v + s) (hin : inShapeB n f = true) (c : Int) :
+    denseAt dflt 1 (leafFiber (isaddF dflt s n f)) [c] =
+      denseAt dflt 1 (leafFiber (saddF dflt s n f)) [c] := by
+  rw [fiber_scalar_iadd_dense dflt s n f hs c, fiber_scalar_add dflt s n f c]
+  by_cases h : 0 ≤ c ∧ c < (n : Int)
+  · rw [if_pos h, if_pos h, hcomm]
+  · rw [if_neg h, if_neg h, denseAt_leaf]
+    cases hl : lookup f c with
+    | none => rfl
+    | some v =>
+      exfalso
+      have hm := mem_of_lookup hl
+      have := List.all_eq_true.1 hin (c, v) hm
+      simp only [Bool.and_eq_true, decide_eq_true_eq] at this
+      exact h this
+
+/-- **`f *= s` = `f * s` (partial)**: when `s` commutes with the values. -/
+theorem fiber_scalar_imul_eq_mul_partial [Mul ν] (dflt s : ν) (f : Fib Int ν) (hs : Sorted f)
+    (hcomm : ∀ v : ν, s * v = v * s) (c : Int) :
+    denseAt dflt 1 (leafFiber (ismulF dflt s f)) [c] =
+      denseAt dflt 1 (leafFiber (smulF dflt s f)) [c] := by
+  rw [fiber_scalar_imul_dense dflt s f c, fiber_scalar_mul dflt s f hs c]
+  by_cases h : denseAt dflt 1 (leafFiber f) [c] ≠ dflt
+  · rw [if_pos h, if_pos h, hcomm]
+  · rw [if_neg h, if_neg h]
+    exact Classical.not_not.1 h
+
+end
 end Ft
